@@ -32,7 +32,8 @@ func zzH_C03_valid_block_accepted(t *zzT) {
 // deviation flag is concretely false. With pairs=1 (thorough) a second, independent pick is added.
 var zzxDevNames = []string{"none", "dev.txStaticallyInvalid", "dev.payloadTooLarge", "dev.version", "dev.heightDelta", "dev.previousBlockID",
 	"dev.slot", "dev.generator", "dev.maxHeightPrevoted", "dev.maxHeightGenerated", "dev.aggregateCommitHeight", "dev.transactionRoot", "dev.assetRoot",
-	"dev.eventRoot", "dev.validatorsHash", "dev.signedByOtherValidator", "dev.signatureGarbage", "dev.abiFailure", "dev.abiVerifyResult"}
+	"dev.eventRoot", "dev.validatorsHash", "dev.signedByOtherValidator", "dev.signatureGarbage", "dev.abiFailure", "dev.abiVerifyResult",
+	"dev.fieldChangedAfterSigning"}
 var zzxDevPick, zzxDevPick2 int
 
 func zzxDev(t *zzT, name string) bool {
@@ -204,9 +205,17 @@ func zzxAcceptStep(t *zzT) {
 	devSigGarbage := zzxDev(t, "dev.signatureGarbage")
 	signerIs0 := headerGenIs0 != devSigner
 	h.Sign(zzxChainID, zzxSel(t, signerIs0, zzxPriv[0], zzxPriv[1]))
-	h.Signature = zzxSel(t, devSigGarbage, bytes.Repeat([]byte{0xff}, 64), h.Signature)
+	if devSigGarbage { // (the deviation is concrete per path: no byte-wise selection, the signature term stays intact)
+		h.Signature = bytes.Repeat([]byte{0xff}, 64)
+	}
+	// a header field changed AFTER signing (the signature stays): the signature covers every header
+	// field, so the block must be refused — here the impliesMaxPrevotes flag, which no other rule looks at
+	devAfterSign := zzxDev(t, "dev.fieldChangedAfterSigning")
+	if devAfterSign {
+		h.ImpliesMaxPrevotes = !h.ImpliesMaxPrevotes
+	}
 	h.Init()
-	sigOK := !devSigner && !devSigGarbage
+	sigOK := !devSigner && !devSigGarbage && !devAfterSign
 	// application verdicts (compared lazily inside the fake)
 	failIdx := int(t.U8("abi.failAt"))
 	t.Assume(failIdx < 8)
